@@ -1,5 +1,7 @@
 import InfluxQL.Lemmas.Quote
 import InfluxQL.Lemmas.QuoteConv
+import InfluxQL.Lemmas.QuoteSpell
+import InfluxQL.Lemmas.Segmented
 /-!
 # C06 — quoting helpers invert the lexer and cannot be broken out of
 
@@ -16,20 +18,6 @@ open InfluxQL Gen
 theorem gen_replacers :
     qsReplacer = [(['\n'], ['\\', 'n']), (['\\'], ['\\', '\\']), (['\''], ['\\', '\''])] ∧
     qiReplacer = [(['\n'], ['\\', 'n']), (['\\'], ['\\', '\\']), (['"'], ['\\', '"'])] := by decide
-
-theorem flatMap_ext {f g : Char → List Char} (h : ∀ c, f c = g c) (s : List Char) :
-    s.flatMap f = s.flatMap g := by
-  induction s with
-  | nil => rfl
-  | cons c s ih => simp [List.flatMap_cons, h c, ih]
-
-theorem quoteString_eq (s : List Char) : quoteString s = '\'' :: (s.flatMap (esc '\'') ++ ['\'']) := by
-  unfold quoteString replaceAll
-  rw [flatMap_ext replaceChar_qs]
-
-theorem replaceAll_qi (s : List Char) : replaceAll qiReplacer s = s.flatMap (esc '"') := by
-  unfold replaceAll
-  rw [flatMap_ext replaceChar_qi]
 
 /-- Delivered form of `QuoteString(s)` followed by `k`. -/
 theorem quoteString_delivered (s k : List Char) :
@@ -75,12 +63,6 @@ theorem scan_quoteString_text (s k : List Char) (hs : Expressible s) :
 
 /-! ## Identifiers -/
 
-/-- `QuoteIdent(s)` for one segment. -/
-theorem quoteIdent_single (s : List Char) :
-    quoteIdent [s] = if identNeedsQuotes s || s == [] then '"' :: (s.flatMap (esc '"') ++ ['"']) else s.flatMap (esc '"') := by
-  simp only [quoteIdent, quoteIdentAux, quoteIdentSeg, List.length_cons, List.length_nil, replaceAll_qi]
-  cases identNeedsQuotes s <;> cases hs : (s == []) <;> simp [hs]
-
 /-- **C06 (quoted identifiers).** The double-quoted form of any expressible name scans as one
 identifier with that name and stops exactly after the closing quote; for an arbitrary name it
 is that identifier or a bad-string token. -/
@@ -92,17 +74,6 @@ theorem scan_quotedIdent_contained (r : Cursor) (s k tail : List Char)
   rw [foldCR_cons_of_ne _ _ (by decide), foldCR_escaped '"' (by decide) s k] at h
   simp only [List.cons_append, List.append_assoc] at h
   exact scan_quotedIdent r s (foldCR k ++ tail) h
-
-/-- An unescaped run of identifier characters is its own escaped and delivered form. -/
-theorem esc_identChars (s : List Char) (h : ∀ c ∈ s, isIdentChar c = true) : s.flatMap (esc '"') = s := by
-  induction s with
-  | nil => rfl
-  | cons c s ih =>
-    have hc := h c (by simp)
-    have h1 : c ≠ '\n' := by intro e; subst e; revert hc; decide
-    have h2 : c ≠ '\\' := by intro e; subst e; revert hc; decide
-    have h3 : c ≠ '"' := by intro e; subst e; revert hc; decide
-    simp [esc, h1, h2, h3, ih (fun x hx => h x (by simp [hx]))]
 
 /-- **C06 (`IdentNeedsQuotes`, soundness of `false`).** For non-empty `s`, if `IdentNeedsQuotes(s)`
 is false then `s` written bare, followed by any character that cannot continue an identifier,
@@ -149,5 +120,173 @@ theorem keywords_need_quotes : ∀ p ∈ keywords, identNeedsQuotes p.1 = true :
 example : Expressible "it's a \\ test\n".toList := by decide
 example : identNeedsQuotes "cpu_load".toList = false ∧ identNeedsQuotes "select".toList = true ∧
     identNeedsQuotes "1a".toList = true ∧ identNeedsQuotes "a b".toList = true := by decide
+
+/-! ## Multi-part names `database.policy.measurement`
+
+`parseSegmentedIdents` (parser.go) reads `ident ( "." ident? )*`: after every DOT token it looks at the
+next *rune* — another `.` means an empty segment. Vocabulary (Lemmas/StmtPieces.lean, Lemmas/Segmented.lean):
+`s.Before k` / `s.Around k`: the parser stands before the runes `k` (possibly with `k`'s first significant
+token pushed back); `Gap pre`: `pre` is nothing or one blank; `IdentEnd last k`: `k` cannot continue the
+last segment when that is written bare; `SegEnd k`: the first raw token of `k` is no DOT (white space, the
+end of the input, `,` `)` `;` `=` a keyword … — `SegEnd.ws`, `SegEnd.eof`, `SegEnd.of_scansAs`);
+`s'.AfterLook k`: the parser stands before `k` after `Scan` + `Unscan` of `k`'s first raw token, which is
+how `parseSegmentedIdents` returns. -/
+
+/-- **C06 (what `QuoteIdent` writes for two and three segments).** Every segment but the last is put
+in double quotes whether it needs them or not; an empty first or last segment is written `""`; an
+empty **middle** segment is written as *nothing*: `QuoteIdent("db", "", "m")` = `"db"..m`. -/
+theorem quoteIdent_segments (a b c : Str) :
+    quoteIdent [a, b] = dq a ++ '.' :: quoteIdent [b] ∧
+    quoteIdent [a, b, c] = dq a ++ '.' :: ((if b = [] then [] else dq b) ++ '.' :: quoteIdent [c]) := by
+  rw [quoteIdent_two, quoteIdent_three]
+  simp [dotted]
+
+/-- **C06 (multi-part names).** For every list of one, two or three expressible segments
+(`init ++ [last]`, `init` of length ≤ 2; any of them may be empty, in particular the middle one):
+from a state standing before `QuoteIdent(segments…)` followed by `k` (after an optional blank),
+`parseSegmentedIdents` returns exactly those segments and stands before `k` after its look-ahead of one
+raw token. Consequently `ScanIgnoreWhitespace` continues as from a state before `k`, and when `k`
+starts with a significant token the state is `Around k`. -/
+theorem segmented_quote_parse (s : PState) (pre : Str) (init : List Str) (last k : Str) (hpre : Gap pre)
+    (hlen : init.length ≤ 2) (hex : ∀ x ∈ init ++ [last], Expressible x)
+    (hlast : IdentEnd last k) (hk : SegEnd k) (hs : s.Around (pre ++ (quoteIdent (init ++ [last]) ++ k))) :
+    ∃ s', parseSegmentedIdents.run s = .ok (init ++ [last], s') ∧ s'.AfterLook k ∧
+      (∃ s0, s0.Before k ∧ scanIW.run s' = scanIW.run s0) ∧ (SigNext k → s'.Around k) := by
+  have hL : SegSpelled last (quoteIdent [last]) (dotted [] ++ k) := segSpelled_quoteIdent _ _ hlast
+  have core : ∃ s', parseSegmentedIdents.run s = .ok (init ++ [last], s') ∧ s'.AfterLook k := by
+    match init, hlen with
+    | [], _ =>
+      exact parseSegmentedIdents_spelled s pre last (quoteIdent [last]) [] [] k hpre
+        (by simpa using hex) hL trivial (by simp) hk (by simpa [dotted] using hs)
+    | [a], _ =>
+      rw [show [a] ++ [last] = [a, last] from rfl, quoteIdent_two] at hs
+      exact parseSegmentedIdents_spelled s pre a (dq a) [last] [quoteIdent [last]] k hpre
+        (by simpa using hex) (Or.inl rfl) ⟨Or.inl hL, trivial⟩ (by simp) hk (by simpa [List.append_assoc] using hs)
+    | [a, b], _ =>
+      rw [show [a, b] ++ [last] = [a, b, last] from rfl, quoteIdent_three] at hs
+      refine parseSegmentedIdents_spelled s pre a (dq a) [b, last] [if b = [] then [] else dq b, quoteIdent [last]]
+        k hpre (by simpa using hex) (Or.inl rfl) ⟨?_, Or.inl hL, trivial⟩ (by simp) hk
+        (by simpa [List.append_assoc] using hs)
+      by_cases hb : b = []
+      · exact Or.inr ⟨hb, by simp [hb], by simp⟩
+      · exact Or.inl (Or.inl (by simp [hb]))
+    | _ :: _ :: _ :: _, h => simp at h
+  obtain ⟨s', h1, h2⟩ := core
+  exact ⟨s', h1, h2, h2.scanIW_eq, h2.around⟩
+
+/-- The limit of three is the parser's: `QuoteIdent` accepts any number of segments, four are rejected
+(`too many segments in "a"."b"."c".d`). -/
+theorem segmented_four_rejected :
+    quoteIdent ["a".toList, "b".toList, "c".toList, "d".toList] = "\"a\".\"b\".\"c\".d".toList ∧
+    (match parseSegmentedIdents.run (PState.init "\"a\".\"b\".\"c\".d".toList [] []) with
+     | .error (.err (.at msg _)) => msg == "too many segments in \"a\".\"b\".\"c\".d".toList
+     | _ => false) = true := by
+  refine ⟨?_, ?_⟩ <;> decide +kernel
+
+/-- **C06 (multi-part names reach the AST slot by slot).** `Measurement.String()` writes
+`QuoteIdent(Database) "." QuoteIdent(RetentionPolicy) "." QuoteIdent(Name)`, leaving out what is
+empty (`db..m`, `rp.m`, `m`). For every measurement with a name (all three parts expressible, no system
+iterator) `parseSource` — with or without sub-queries allowed — on that text followed by `k` returns
+the measurement whose Database / RetentionPolicy / Name are exactly the three parts, in all four
+shapes, and stands before `k` as `parseSegmentedIdents` leaves it.
+
+`_partial`: `m.name ≠ []` is required. A measurement without a name prints nothing after the last dot
+(`a.b.`), or a regular expression when it has one (covered with the statements, C02); this is the
+recorded finding `empty-identifier-not-printed` (notes/C02.md); witness
+`measurement_empty_name_counterexample`. -/
+theorem measurement_print_parse_partial (sub : Option (P SelectStmt)) (s : PState) (pre : Str) (m : Measurement)
+    (k : Str) (hpre : Gap pre) (hname : m.name ≠ []) (hsys : m.systemIterator = [])
+    (hdb : Expressible m.database) (hrp : Expressible m.retentionPolicy) (hnm : Expressible m.name)
+    (hlast : IdentEnd m.name k) (hk : SegEnd k) (hs : s.Around (pre ++ (m.print ++ k))) :
+    ∃ s', (parseSourceWith sub).run s =
+        .ok (.measurement { database := m.database, retentionPolicy := m.retentionPolicy, name := m.name }, s') ∧
+      s'.AfterLook k ∧ (∃ s0, s0.Before k ∧ scanIW.run s' = scanIW.run s0) ∧ (SigNext k → s'.Around k) := by
+  obtain ⟨s', h1, h2⟩ := parseSource_print sub s pre m k hpre hname hsys hdb hrp hnm hlast hk hs
+  exact ⟨s', h1, h2, h2.scanIW_eq, h2.around⟩
+
+/-- **C06 (multi-part names in `INTO`).** `Target.String()` = `INTO ` + `Measurement.String()`: for a named
+measurement, followed by a blank and a rune `c` that is neither white space, NUL nor `:` (in a statement:
+` FROM …`), `parseTarget` returns the target with Database / RetentionPolicy / Name = the three parts. The
+hypothesis on `c` is real: after `parseSegmentedIdents`, `parseTarget` looks at the *rune reader* for the
+`:` of `:MEASUREMENT`, and the reader stands behind the pushed-back blank. `_partial` for the same reason
+as `measurement_print_parse_partial` (`m.name ≠ []`; a target without a name prints `db.rp.:MEASUREMENT`,
+which is a different branch of the loop). -/
+theorem target_print_parse_partial (required : Bool) (s : PState) (m : Measurement) (c : Char) (t : Str)
+    (hname : m.name ≠ []) (hsys : m.systemIterator = [])
+    (hdb : Expressible m.database) (hrp : Expressible m.retentionPolicy) (hnm : Expressible m.name)
+    (hc : isWhitespace c = false) (hce : c ≠ eofRune) (hcc : c ≠ ':')
+    (hs : s.Around (' ' :: (printTarget m ++ ' ' :: c :: t))) :
+    ∃ s', (parseTarget required).run s =
+        .ok (some { database := m.database, retentionPolicy := m.retentionPolicy, name := m.name, isTarget := true },
+          s') ∧ s'.AfterLook (' ' :: c :: t) :=
+  parseTarget_print required s m c t hname hsys hdb hrp hnm hc hce hcc hs
+
+/-- Why `m.name ≠ []` is needed: the measurement with database `a`, policy `b` and an empty name (the
+parser produces it for `a.b.""`) prints as `a.b.`, and that text is rejected (`found EOF, expected
+identifier`); likewise `a..` for an empty policy and name. -/
+theorem measurement_empty_name_counterexample :
+    Measurement.print { database := "a".toList, retentionPolicy := "b".toList, name := [] } = "a.b.".toList ∧
+    (match (parseSourceWith none).run (PState.init "a.b.".toList [] []) with
+     | .error _ => true
+     | .ok _ => false) = true ∧
+    Measurement.print { database := "a".toList, name := [] } = "a..".toList ∧
+    (match (parseSourceWith none).run (PState.init "a..".toList [] []) with
+     | .error _ => true
+     | .ok _ => false) = true := by
+  refine ⟨?_, ?_, ?_, ?_⟩ <;> decide +kernel
+
+-- non-vacuity: the three spellings asked for, through the theorems and by evaluation
+example : quoteIdent ["my db".toList, [], "cpu load".toList] = "\"my db\"..\"cpu load\"".toList ∧
+    quoteIdent ["a".toList, "b".toList, "c".toList] = "\"a\".\"b\".c".toList ∧
+    quoteIdent ["db".toList, "rp".toList, "x.y".toList] = "\"db\".\"rp\".\"x.y\"".toList ∧
+    quoteIdent [[], [], []] = "\"\"..\"\"".toList := by decide +kernel
+
+example : ∃ s', parseSegmentedIdents.run (PState.init "\"my db\"..\"cpu load\"".toList [] []) =
+    .ok (["my db".toList, [], "cpu load".toList], s') := by
+  have e : foldCR "\"my db\"..\"cpu load\"".toList ++ [eofRune] =
+      [] ++ (quoteIdent (["my db".toList, []] ++ ["cpu load".toList]) ++ [eofRune]) := by decide +kernel
+  obtain ⟨s', h, _⟩ := segmented_quote_parse (PState.init "\"my db\"..\"cpu load\"".toList [] []) []
+    ["my db".toList, []] "cpu load".toList [eofRune] Gap.none (by decide) (by decide) (Or.inl (by decide))
+    SegEnd.eof (e ▸ (PState.init_before _ [] []).around)
+  exact ⟨s', h⟩
+
+example : Measurement.print { database := "a".toList, retentionPolicy := "b".toList, name := "c".toList } =
+      "a.b.c".toList ∧
+    Measurement.print { database := "db".toList, retentionPolicy := "rp".toList, name := "x.y".toList } =
+      "db.rp.\"x.y\"".toList ∧
+    Measurement.print { database := "my db".toList, name := "cpu load".toList } =
+      "\"my db\"..\"cpu load\"".toList := by decide +kernel
+
+example : ∃ s', (parseSourceWith none).run (PState.init " db.rp.\"x.y\" WHERE".toList [] []) =
+    .ok (.measurement { database := "db".toList, retentionPolicy := "rp".toList, name := "x.y".toList }, s') := by
+  have e : foldCR " db.rp.\"x.y\" WHERE".toList ++ [eofRune] =
+      [' '] ++ (Measurement.print { database := "db".toList, retentionPolicy := "rp".toList, name := "x.y".toList } ++
+        (' ' :: "WHERE".toList ++ [eofRune])) := by decide +kernel
+  obtain ⟨s', h, _⟩ := measurement_print_parse_partial none (PState.init " db.rp.\"x.y\" WHERE".toList [] []) [' ']
+    { database := "db".toList, retentionPolicy := "rp".toList, name := "x.y".toList }
+    (' ' :: "WHERE".toList ++ [eofRune]) Gap.blank (by decide) rfl (by decide) (by decide) (by decide)
+    (Or.inl (by decide)) (SegEnd.ws ' ' _ (by decide)) (e ▸ (PState.init_before _ [] []).around)
+  exact ⟨s', h⟩
+
+example : ∃ s', (parseSourceWith none).run (PState.init "a.b.c".toList [] []) =
+    .ok (.measurement { database := "a".toList, retentionPolicy := "b".toList, name := "c".toList }, s') := by
+  have e : foldCR "a.b.c".toList ++ [eofRune] =
+      [] ++ (Measurement.print { database := "a".toList, retentionPolicy := "b".toList, name := "c".toList } ++
+        [eofRune]) := by decide +kernel
+  obtain ⟨s', h, _⟩ := measurement_print_parse_partial none (PState.init "a.b.c".toList [] []) []
+    { database := "a".toList, retentionPolicy := "b".toList, name := "c".toList }
+    [eofRune] Gap.none (by decide) rfl (by decide) (by decide) (by decide)
+    (Or.inr WordEnd.eof) SegEnd.eof (e ▸ (PState.init_before _ [] []).around)
+  exact ⟨s', h⟩
+example : ∃ s', (parseTarget false).run (PState.init " INTO \"my db\"..\"cpu load\" FROM x".toList [] []) =
+    .ok (some { database := "my db".toList, name := "cpu load".toList, isTarget := true }, s') := by
+  have e : foldCR " INTO \"my db\"..\"cpu load\" FROM x".toList ++ [eofRune] =
+      ' ' :: (printTarget { database := "my db".toList, name := "cpu load".toList } ++
+        ' ' :: 'F' :: ("ROM x".toList ++ [eofRune])) := by decide +kernel
+  obtain ⟨s', h, _⟩ := target_print_parse_partial false (PState.init " INTO \"my db\"..\"cpu load\" FROM x".toList [] [])
+    { database := "my db".toList, name := "cpu load".toList } 'F' ("ROM x".toList ++ [eofRune])
+    (by decide) rfl (by decide) (by decide) (by decide) (by decide) (by decide) (by decide)
+    (e ▸ (PState.init_before _ [] []).around)
+  exact ⟨s', h⟩
 
 end InfluxQL.C06
